@@ -2,7 +2,9 @@ import RustbusModel.Lemmas.LimitsDec
 import RustbusModel.Lemmas.LimitsSend
 import RustbusModel.Lemmas.LimitsRecv
 import RustbusModel.Model.Send
+import RustbusModel.Props.C01
 import RustbusModel.Props.C02
+import RustbusModel.Model.MarshalParam
 import RustbusModel.Props.C03
 import RustbusModel.Props.C09
 /-!
@@ -581,6 +583,42 @@ example : marshalLen (exLens 1 134217672) = some 56 ∧ marshalLen (exLens 1 134
 
 end Rustbus.Limits
 
+namespace Rustbus.Marshal
+open Rustbus Rustbus.Bytes Rustbus.Wire Rustbus.Spec.Wire
+
+/-- **Send-side nesting limit (Param API).** What `marshal_param` emits needs at most 64 container levels, and - with NO
+    depth hypothesis left - is accepted by raw validation and read back as the same value by the decoders, whatever
+    precedes and follows it: the Param marshaller never produces bytes its own receive side refuses. -/
+theorem param_send_depth_limit (bo : ByteOrder) (t : Ty) (v : Val) (pre out suf : List UInt8) (nfds : Nat)
+    (h : marshalParam bo t v pre = some out) (hfd : fdsBelow nfds t v = true) :
+    depthOf t v ≤ maxDepth ∧
+    ∃ bs, out = pre ++ bs ∧ enc bo pre.length t v = some bs ∧
+      validate bo (pre ++ (bs ++ suf)) pre.length t = some bs.length ∧
+      unmarshal bo (pre ++ (bs ++ suf)) nfds pre.length t = some (v, pre.length + bs.length) := by
+  unfold marshalParam at h
+  by_cases hd : depthOf t v ≤ maxDepth
+  · rw [if_pos hd] at h
+    obtain ⟨bs, he, rfl⟩ := marshal_extends bo t v pre out h
+    exact ⟨hd, bs, rfl, he, validate_roundtrip bo t v pre bs suf he hd, roundtrip bo t v pre bs suf nfds he hd hfd⟩
+  · rw [if_neg hd] at h; simp at h
+
+/-- a value nested deeper than 64 levels is refused by the Param marshaller although the mechanism could write it -/
+theorem param_too_deep_refused (bo : ByteOrder) (t : Ty) (v : Val) (buf : List UInt8) (h : maxDepth < depthOf t v) :
+    marshalParam bo t v buf = none := by
+  unfold marshalParam
+  rw [if_neg (by omega)]
+
+
+-- non-vacuity: a tower of 64 variants around a byte is marshalled, validated and read back; 65 are refused
+def vtower : Nat → Val
+  | 0 => .num 9
+  | n + 1 => .variant (if n = 0 then .base .byte else .variant) (vtower n)
+example : (marshalParam .le .variant (vtower 64) [0, 0, 0]).isSome = true ∧ depthOf .variant (vtower 64) = 64 ∧
+    marshalParam .le .variant (vtower 65) [0, 0, 0] = none ∧ (marshalM .le .variant (vtower 65) [0, 0, 0]).isSome = true := by
+  decide +kernel
+
+end Rustbus.Marshal
+
 #print axioms Rustbus.Limits.announcement_limit
 #print axioms Rustbus.Limits.announcement_limit_all_lengths
 #print axioms Rustbus.Limits.invalid_header_refused
@@ -606,3 +644,5 @@ end Rustbus.Limits
 #print axioms Rustbus.Limits.send_message_limit
 #print axioms Rustbus.Limits.refused_send_writes_nothing
 #print axioms Rustbus.Limits.send_receive_limits_agree
+#print axioms Rustbus.Marshal.param_send_depth_limit
+#print axioms Rustbus.Marshal.param_too_deep_refused
